@@ -70,6 +70,8 @@ type connCase struct {
 	// Hosts: text of the hosts file the proxy instance is constructed with ("" = the machine's own): the
 	// names it gives to loopback addresses are localhost names of that instance, see hostsfile.go
 	Hosts string `json:"hosts,omitempty"`
+	// HostsState: a hosts file that is no text — "empty" | "missing" | "dir" (opens, cannot be read), see hostsSrc
+	HostsState string `json:"hosts_state,omitempty"`
 	Items []item `json:"items"`
 }
 
@@ -94,6 +96,12 @@ type env struct {
 	names    []string
 	hosts    string                // text of the hosts file the instance was constructed with ("" = the machine's)
 	hostRecs []reqmodel.HostsRecord // its records, as the harness reads them
+	// hostsState: see hostsSrc.State; hostsGen: constructed on a generated hosts file; hostsReject: why the
+	// construction had to fail ("" = it had not): the instance exists although the file is rejected, hostRecs are the
+	// records of the lines that can be read and names the localhost names a complete reading would have given
+	hostsState  string
+	hostsGen    bool
+	hostsReject string
 }
 
 func (e *env) close() {
@@ -151,12 +159,22 @@ func timeFrames(open bool) []reqmodel.TimeFrame {
 }
 
 func newEnv(ctx *core.Ctx, mask int, timeOpen bool, mode string, frameKind string, hosts string) (*env, error) {
-	e := &env{mask: mask, timeOpen: timeOpen, mode: mode, frameKind: frameKind, names: localNames(), hosts: hosts}
-	if hosts != "" {
-		e.hostRecs = reqmodel.ParseHosts(hosts)
+	return newEnvSrc(ctx, mask, timeOpen, mode, frameKind, hostsSrc{Text: hosts})
+}
+
+func newEnvSrc(ctx *core.Ctx, mask int, timeOpen bool, mode string, frameKind string, src hostsSrc) (e *env, err error) {
+	e = &env{mask: mask, timeOpen: timeOpen, mode: mode, frameKind: frameKind, names: localNames(), hosts: src.Text, hostsState: src.State, hostsGen: src.generated()}
+	if e.hostsGen {
+		e.hostsReject, e.hostRecs = src.expect()
 		e.names = namesFromHosts(e.hostRecs)
 	}
-	var err error
+	made := e
+	defer func() {
+		if err != nil {
+			made.close() // (a construction that fails is the expected outcome for part of the generated hosts files)
+			e = nil
+		}
+	}()
 	if e.origin, err = rig.NewPeer("origin", okResponder); err != nil {
 		return nil, err
 	}
@@ -236,7 +254,7 @@ func newEnv(ctx *core.Ctx, mask int, timeOpen bool, mode string, frameKind strin
 			return network, post
 		}
 	}
-	if e.proxy, err = startProxyWithHosts(ctx, opts, hosts, e.hostRecs); err != nil {
+	if e.proxy, err = startProxyWithHosts(ctx, opts, src, e.hostRecs, e.hostsReject); err != nil {
 		return nil, err
 	}
 	e.cfg = fc.Base
@@ -384,6 +402,7 @@ type oneItem struct {
 	Frames   string `json:"frames,omitempty"`
 	Zone     string `json:"zone,omitempty"`
 	Hosts    string `json:"hosts,omitempty"`
+	HostsState string `json:"hosts_state,omitempty"`
 	// informative (a replay lays the frame family around the clock of the replaying run)
 	FramesUsed []reqmodel.TimeFrame `json:"frames_used,omitempty"`
 	LocalClock string               `json:"local_clock,omitempty"`
@@ -444,10 +463,10 @@ func (it *item) wire() []byte {
 // the local wall clock itself (Model/C04.lean timeAllowedAt).
 func (e *env) clockAt(now time.Time) *reqmodel.Clock {
 	if e.mask&ctlTime == 0 {
-		return &reqmodel.Clock{HostsFile: e.hosts != "", Hosts: e.hostRecs}
+		return &reqmodel.Clock{HostsFile: e.hostsGen, Hosts: e.hostRecs}
 	}
 	_, off := now.Zone()
-	return &reqmodel.Clock{Entries: e.frames, At: true, Unix: now.Unix(), Offset: off, HostsFile: e.hosts != "", Hosts: e.hostRecs}
+	return &reqmodel.Clock{Entries: e.frames, At: true, Unix: now.Unix(), Offset: off, HostsFile: e.hostsGen, Hosts: e.hostRecs}
 }
 
 // specTimeAllowed: the documented meaning of --allow-time-frame evaluated on the local wall clock,
@@ -499,7 +518,7 @@ func (e *env) runConn(ctx *core.Ctx, cc *connCase) {
 	secure := false
 	for i := range cc.Items {
 		it := &cc.Items[i]
-		one := oneItem{Kind: "one", Mask: cc.Mask, TimeOpen: cc.TimeOpen, Mode: cc.Mode, Frames: cc.Frames, Zone: cc.Zone, Hosts: cc.Hosts, Position: i, Inner: secure,
+		one := oneItem{Kind: "one", Mask: cc.Mask, TimeOpen: cc.TimeOpen, Mode: cc.Mode, Frames: cc.Frames, Zone: cc.Zone, Hosts: cc.Hosts, HostsState: cc.HostsState, Position: i, Inner: secure,
 			Prefix: cc.Items[:i], Item: *it}
 		before := e.quiesce()
 		d0 := e.dialCount()
@@ -537,8 +556,8 @@ func (e *env) runConn(ctx *core.Ctx, cc *connCase) {
 		if cc.Frames != "" || cc.Zone != "" {
 			key += "|" + cc.Frames + "|" + cc.Zone
 		}
-		if cc.Hosts != "" {
-			key += "|hosts:" + cc.Hosts
+		if cc.Hosts != "" || cc.HostsState != "" {
+			key += "|hosts:" + cc.HostsState + ":" + cc.Hosts
 		}
 		pa := paValues(it.fields())
 		sv, class := e.spec(timeAllowed, hn, pa)
@@ -560,7 +579,7 @@ func (e *env) runConn(ctx *core.Ctx, cc *connCase) {
 		if cc.Zone != "" {
 			ctx.Count("zone/" + cc.Zone)
 		}
-		if cc.Hosts != "" {
+		if cc.Hosts != "" || cc.HostsState != "" {
 			e.countHostsCase(ctx, hn)
 		}
 		nontrivial := e.mask != 0 && (sv.refuse || len(pa) > 0 || it.Connect != nil)
@@ -719,6 +738,7 @@ type envKey struct {
 	mode     string
 	frames   string
 	hosts    string
+	hostsState string
 }
 
 type envSlot struct {
@@ -736,13 +756,19 @@ type envPool struct {
 func newEnvPool(ctx *core.Ctx) *envPool { return &envPool{envs: map[envKey]*envSlot{}, ctx: ctx} }
 
 func (p *envPool) get(mask int, timeOpen bool, mode string, frames string, hosts string) (*env, error) {
+	return p.getSrc(mask, timeOpen, mode, frames, hostsSrc{Text: hosts})
+}
+
+func (cc *connCase) hostsSrc() hostsSrc { return hostsSrc{State: cc.HostsState, Text: cc.Hosts} }
+
+func (p *envPool) getSrc(mask int, timeOpen bool, mode string, frames string, src hostsSrc) (*env, error) {
 	if mask&ctlTime == 0 {
 		timeOpen, frames = true, ""
 	}
 	if frames != "" {
 		timeOpen = true
 	}
-	k := envKey{mask, timeOpen, mode, frames, hosts}
+	k := envKey{mask, timeOpen, mode, frames, src.Text, src.State}
 	p.mu.Lock()
 	sl, ok := p.envs[k]
 	if !ok {
@@ -751,7 +777,7 @@ func (p *envPool) get(mask int, timeOpen bool, mode string, frames string, hosts
 	}
 	p.mu.Unlock()
 	// environments are started outside the pool's lock (several at a time)
-	sl.once.Do(func() { sl.env, sl.err = newEnv(p.ctx, mask, timeOpen, mode, frames, hosts) })
+	sl.once.Do(func() { sl.env, sl.err = newEnvSrc(p.ctx, mask, timeOpen, mode, frames, src) })
 	return sl.env, sl.err
 }
 
@@ -786,6 +812,11 @@ func Run(ctx *core.Ctx) {
 		"records with other addresses (0.0.0.0, 10.x, fe80::1 ...) whose names must not become localhost; targets: every name of the file as spelt, lower, upper and " +
 		"mixed case, the built-in names, loopback / unspecified literals, near misses; GET/HEAD/POST/CONNECT, with and without port, localhost denial on and off, " +
 		"directly, through an upstream proxy and inside an intercepted tunnel; the model composes the localhost names from the file's records itself (hostsrec=); " +
+		"the OUTCOME OF THE CONSTRUCTION on every hosts file: files the decoder rejects (an address without a name, a lone name, a first field that is no address, " +
+		"a line of 64 KiB or more, a byte order mark — at the beginning, in the middle, at the end, next to well-formed loopback alias records), a missing file, a " +
+		"directory, an empty file, comments only, CRLF and CR-only line ends, no final line feed, a record just below the line limit: NewHTTPProxy must fail exactly " +
+		"when the model's all-or-nothing reader does (C04 hostsdecode), an instance that exists although its file is rejected has every loopback alias of the file " +
+		"probed (GET/HEAD/CONNECT, several letter cases) and must refuse each; hosts-file texts through model, the harness's reading and the library's Decode; " +
 		"non-trivial = some control enabled and (the property refuses the request, or it carries Proxy-Authorization, or it is a CONNECT); API cases: every " +
 		"zoned time-frame case, every basic-auth case with a value; distinct = distinct (configuration, zone, frame family, position kind, request bytes)")
 	maybeZoneChild(ctx)
@@ -803,7 +834,11 @@ func Run(ctx *core.Ctx) {
 		go func() {
 			defer wg.Done()
 			for cc := range jobs {
-				e, err := pool.get(cc.Mask, cc.TimeOpen, cc.Mode, cc.Frames, cc.Hosts)
+				e, err := pool.getSrc(cc.Mask, cc.TimeOpen, cc.Mode, cc.Frames, cc.hostsSrc())
+				if err == errHostsRejected {
+					ctx.Count("hosts-file/connection-not-run-construction-fails-as-modelled")
+					continue
+				}
 				if err != nil {
 					ctx.Crash("proxy starts with a valid configuration", "", cc, err.Error())
 					continue
@@ -822,7 +857,7 @@ func Run(ctx *core.Ctx) {
 	}
 	// the same with proxy instances constructed on generated hosts files
 	hostsFiles := genHostsFiles(ctx)
-	for i, n := 0, ctx.N(900, 8000); i < n; i++ {
+	for i, n := 0, ctx.N(1500, 12000); i < n; i++ {
 		r := ctx.Rng.Sub()
 		cc := genHostsConn(r, hostsFiles[i%len(hostsFiles)])
 		if i == 0 {
@@ -830,9 +865,17 @@ func Run(ctx *core.Ctx) {
 		}
 		jobs <- cc
 	}
+	// the outcome of the construction on every hosts file of this run; the aliases of an instance that exists
+	// although its hosts file is rejected are probed
+	for _, hf := range hostsFiles {
+		for _, cc := range hostsConstructCases(ctx, hf) {
+			jobs <- cc
+		}
+	}
 	close(jobs)
 	wg.Wait()
 	hostsAPI(ctx, hostsFiles)
+	hostsDecodeAPI(ctx, hostsFiles)
 	runZones(ctx)
 	var ks []string
 	for k := range pool.envs {
@@ -857,23 +900,32 @@ func replayWith(ctx *core.Ctx, pool *envPool, raw json.RawMessage) {
 	case "hostsfile":
 		// what hostsfile.LocalhostAliases reads from a generated hosts file: compared when an instance is constructed on it
 		var h struct {
-			Hosts string `json:"hosts"`
+			Hosts      string `json:"hosts"`
+			HostsState string `json:"hosts_state"`
 		}
 		json.Unmarshal(raw, &h)
-		e, err := newEnv(ctx, ctlLocal, true, "direct", "", h.Hosts)
-		if err != nil {
+		e, err := newEnvSrc(ctx, ctlLocal, true, "direct", "", hostsSrc{State: h.HostsState, Text: h.Hosts})
+		if err != nil && err != errHostsRejected {
 			ctx.Crash("proxy starts with a valid configuration", "", h, err.Error())
 		}
 		if e != nil {
 			e.close()
 		}
 		return
+	case "hosts-decode":
+		var h struct {
+			Hosts      string `json:"hosts"`
+			HostsState string `json:"hosts_state"`
+		}
+		json.Unmarshal(raw, &h)
+		hostsDecodeCase(ctx, hostsSrc{State: h.HostsState, Text: h.Hosts}, "replay")
+		return
 	case "one":
 		var o oneItem
 		if err := json.Unmarshal(raw, &o); err != nil {
 			core.Fatalf("bad C04 case: %v", err)
 		}
-		cc = connCase{Kind: "conn", Mask: o.Mask, TimeOpen: o.TimeOpen, Mode: o.Mode, Frames: o.Frames, Zone: o.Zone, Hosts: o.Hosts, Items: append(append([]item{}, o.Prefix...), o.Item)}
+		cc = connCase{Kind: "conn", Mask: o.Mask, TimeOpen: o.TimeOpen, Mode: o.Mode, Frames: o.Frames, Zone: o.Zone, Hosts: o.Hosts, HostsState: o.HostsState, Items: append(append([]item{}, o.Prefix...), o.Item)}
 	default:
 		if err := json.Unmarshal(raw, &cc); err != nil {
 			core.Fatalf("bad C04 case: %v", err)
@@ -884,7 +936,10 @@ func replayWith(ctx *core.Ctx, pool *envPool, raw json.RawMessage) {
 		runZoneChild(ctx, zoneJob{Zone: cc.Zone, Cases: []connCase{cc}})
 		return
 	}
-	e, err := pool.get(cc.Mask, cc.TimeOpen, cc.Mode, cc.Frames, cc.Hosts)
+	e, err := pool.getSrc(cc.Mask, cc.TimeOpen, cc.Mode, cc.Frames, cc.hostsSrc())
+	if err == errHostsRejected {
+		return
+	}
 	if err != nil {
 		ctx.Crash("proxy starts with a valid configuration", "", cc, err.Error())
 		return
